@@ -202,6 +202,16 @@ CHECKS['C05'] = dict(
     technique='metamorphic exploration of the concatenation law on the implementation (Lean locality theorem pending the block-parser model)',
     ref='DESIGN.md section 5, C05')
 
+CHECKS['C14'] = dict(
+    category='exploration',
+    text='Interim level: paragraphs of 1-4 lines assembled from a vocabulary of ~120 tricky-but-inert tokens and accepted by '
+         'an independent, conservative inertness predicate written from the specification (block-start patterns per line, '
+         'inline triggers over the paragraph, the delimiter-run algorithm for * and _) must render as exactly that text, '
+         'HTML-escaped, in a single <p>. The Lean theorem C14_prose over the parser model is the planned upgrade.',
+    note='Trusted: the inertness predicate and spec_emph.py as readings of the specification. Interim level, see DESIGN.md C14.',
+    technique='exploration with a specification-derived inertness oracle (Lean theorem pending the parser model)',
+    ref='DESIGN.md section 5, C14')
+
 NOT_YET = {}
 
 
